@@ -660,7 +660,7 @@ pub fn finish(ctx: &Ctx, report: Report, started: Instant) -> i32 {
     let mut stdout_lines = Vec::new();
     for v in &report.violations {
         let body = json!({
-            "property": ctx.id,
+            "property": ctx.id.strip_suffix('S').unwrap_or(&ctx.id),
             "check": v.check,
             "case": v.case,
             "signature": v.fail.signature,
@@ -685,7 +685,7 @@ pub fn finish(ctx: &Ctx, report: Report, started: Instant) -> i32 {
             "violation in sub-check {} [{}]: {}",
             v.check, v.fail.signature, v.fail.detail
         );
-        stdout_lines.push(format!("VIOLATION property={} replay={}", ctx.id, path));
+        stdout_lines.push(format!("VIOLATION property={} replay={}", ctx.id.strip_suffix('S').unwrap_or(&ctx.id), path));
         exit = 1;
     }
     for k in &report.known {
@@ -726,7 +726,9 @@ pub fn finish(ctx: &Ctx, report: Report, started: Instant) -> i32 {
         "wall_s": started.elapsed().as_secs_f64(),
         "violations": report.violations.len(),
     });
-    let dir = format!("{VERIF_ROOT}/evidence");
+    // (auxiliary runs such as the OS-thread stress of C28/C32 write elsewhere;
+    // their numbers are folded into the property's evidence by the main engine)
+    let dir = std::env::var("VERIF_EVIDENCE_DIR").unwrap_or_else(|_| format!("{VERIF_ROOT}/evidence"));
     let _ = std::fs::create_dir_all(&dir);
     let path = format!("{dir}/{}.json", ctx.id);
     if let Err(e) = std::fs::write(&path, serde_json::to_string_pretty(&evidence).unwrap()) {
